@@ -134,6 +134,14 @@ func Fullwidth(s string) string {
 	return sb.String()
 }
 
+// UnicodeClassRunes: non-ASCII characters that the standard library's Unicode-aware helpers put in
+// the same class as an ASCII structural byte: unicode.IsSpace / strings.TrimSpace / strings.Fields
+// (spaces), unicode.IsDigit (digits), unicode.IsLetter / IsUpper / IsLower (letters). A scanner that
+// replaces a byte-table test by one of these helpers changes what these characters mean.
+var UnicodeSpaces = []string{"\u0085", "\u00a0", "\u1680", "\u2000", "\u2003", "\u200a", "\u2028", "\u2029", "\u202f", "\u205f", "\u3000"}
+var UnicodeDigits = []string{"\u0661", "\u06f1", "\u0967", "\uff11", "\U0001d7cf"}
+var UnicodeLetters = []string{"\u00e9", "\u00c9", "\u0430", "\u0391", "\uff41", "\uff21", "\u4e2d"}
+
 // BOM and other multi-byte material placed at offset 0 or across the 31-byte clip.
 const BOM = "\xef\xbb\xbf"
 
@@ -192,7 +200,7 @@ func Bytes(max int) *rapid.Generator[string] {
 }
 
 // Mutate applies 1-4 random edits (insert fragment/byte, delete, duplicate a
-// slice, splice, flip case, truncate) to s.
+// slice, splice, flip case, truncate, copy a slice elsewhere) to s.
 func Mutate(t *rapid.T, s string, frags []string) string {
 	n := rapid.IntRange(1, 4).Draw(t, "nmut")
 	for i := 0; i < n; i++ {
@@ -200,7 +208,7 @@ func Mutate(t *rapid.T, s string, frags []string) string {
 		if len(s) > 0 {
 			pos = rapid.IntRange(0, len(s)).Draw(t, "pos")
 		}
-		switch rapid.IntRange(0, 6).Draw(t, "op") {
+		switch rapid.IntRange(0, 7).Draw(t, "op") {
 		case 0:
 			s = s[:pos] + rapid.SampledFrom(frags).Draw(t, "frag") + s[pos:]
 		case 1:
@@ -228,6 +236,13 @@ func Mutate(t *rapid.T, s string, frags []string) string {
 		case 6:
 			if pos < len(s) {
 				s = s + s[pos:]
+			}
+		case 7:
+			// copy a slice to another place (mirrored delimiters, repeated tags)
+			if pos < len(s) {
+				end := pos + rapid.IntRange(1, min(10, len(s)-pos)).Draw(t, "cpl")
+				to := rapid.IntRange(0, len(s)).Draw(t, "to")
+				s = s[:to] + s[pos:end] + s[to:]
 			}
 		}
 	}
